@@ -223,6 +223,28 @@ Fixpoint tags_of (ops : list (str * str)) (seen : list str) : list str :=
 Definition ids_of_tag (t : str) (ops : list (str * str)) : list str :=
   map snd (filter (fun o => str_eqb (fst o) t) ops).
 
+(* ---- packages between the client directory and a core nested two or more levels inside it (output package c1,
+   core c1.x.core: c1/x).  Since the fix of F09h every path ensures the __init__.py chain of the core's ancestors:
+   the direct path whenever core_dir <> out_dir, the temp tree of the diff path with the same loop. *)
+Fixpoint proper_prefixes (p : path) : list path :=      (* [], [a], [a;b] … strictly shorter than p *)
+  match p with
+  | [] => []
+  | x :: r => [] :: map (cons x) (proper_prefixes r)
+  end.
+Fixpoint drop_prefix (a b : path) : option path :=      (* b = a ++ rest *)
+  match a, b with
+  | [], _ => Some b
+  | x :: a', y :: b' => if str_eqb x y then drop_prefix a' b' else None
+  | _, [] => None
+  end.
+(* the intermediate package directories strictly between out_dir and core_dir *)
+Definition gap_dirs (g : gen_input) : list path :=
+  match drop_prefix (g_out g) (g_core g) with
+  | Some rest => map (fun q => g_out g ++ q) (filter (fun q => match q with [] => false | _ => true end) (proper_prefixes rest))
+  | None => []
+  end.
+Definition gap_inits (g : gen_input) : list (path * content) := map (fun d => (d ++ [s_init], CEmpty)) (gap_dirs g).
+
 (* files of one run of the emitters: [ids] are the operation ids the endpoint / mock emitters see *)
 Definition emitted (g : gen_input) (root_init : content) (aliases : list N) (reg : option registry)
     (ids : list str) : atree :=
@@ -242,7 +264,8 @@ Definition emitted (g : gen_input) (root_init : content) (aliases : list N) (reg
        (g_out g ++ [s_mocks; s_init], CFixed 16);
        (g_out g ++ [s_mocks; s_mock_client], CFixed 17);
        (g_out g ++ [s_mocks; s_endpoints; s_init], CFixed 18) ]
-  ++ map (fun t => (g_out g ++ [s_mocks; s_endpoints; s_mock_ ++ t ++ dot_py], CMock (ids_of_tag t ops'))) tags.
+  ++ map (fun t => (g_out g ++ [s_mocks; s_endpoints; s_mock_ ++ t ++ dot_py], CMock (ids_of_tag t ops'))) tags
+  ++ gap_inits g.
 
 Section Modes.
   Variable san : str -> str.
@@ -291,35 +314,10 @@ Section Modes.
     | _ => (RDifferences, existing)
     end.
 
-  (* ---- F09h: packages between the client directory and a core nested two or more levels inside it ----
-     The direct path creates the __init__.py chain of the core's ancestors only when the core lies OUTSIDE the
-     output directory (`if not str(core_dir).startswith(str(out_dir))`).  For output package c1 and core c1.x.core
-     the file c1/x/__init__.py is therefore written only by ANOTHER client's generation (c2 with core_package
-     c1.x.core, for which the core is outside); c1's own force run and the temp tree of its diff path never have it. *)
-  Fixpoint proper_prefixes (p : path) : list path :=      (* [], [a], [a;b] … strictly shorter than p *)
-    match p with
-    | [] => []
-    | x :: r => [] :: map (cons x) (proper_prefixes r)
-    end.
-  Fixpoint drop_prefix (a b : path) : option path :=      (* b = a ++ rest *)
-    match a, b with
-    | [], _ => Some b
-    | x :: a', y :: b' => if str_eqb x y then drop_prefix a' b' else None
-    | _, [] => None
-    end.
-  (* the intermediate package directories strictly between out_dir and core_dir *)
-  Definition gap_dirs (g : gen_input) : list path :=
-    match drop_prefix (g_out g) (g_core g) with
-    | Some rest => map (fun q => g_out g ++ q) (filter (fun q => match q with [] => false | _ => true end) (proper_prefixes rest))
-    | None => []
-    end.
-  Definition gap_inits (g : gen_input) : atree := map (fun d => (d ++ [s_init], CEmpty)) (gap_dirs g).
   (* the existing tree after generate(force) of this client, optionally followed by the generation of another
-     client that uses the same core ([touched]) *)
-  Definition existing_after (g : gen_input) (found : registry) (touched : bool) : atree :=
-    tree_force g found ++ (if touched then gap_inits g else []).
-  Definition guard_F09h (g : gen_input) (touched : bool) : bool :=
-    negb touched || match gap_inits g with [] => true | _ => false end.
+     client that uses the same core ([touched]): that run finds the whole __init__.py chain in place and, as far as
+     this client's directories are concerned, changes nothing but the shared core files already accounted for by [found] *)
+  Definition existing_after (g : gen_input) (found : registry) (touched : bool) : atree := tree_force g found.
 
   Fixpoint nodupb (l : list str) : bool :=
     match l with [] => true | x :: r => negb (mem_str x r) && nodupb r end.
